@@ -1,13 +1,15 @@
 pub mod c02;
 pub mod c06;
+pub mod c09;
 pub mod c10;
+pub mod c13;
 pub mod session;
 pub mod treecheck;
 
 use crate::core::Check;
 
 pub fn registry() -> Vec<&'static dyn Check> {
-    vec![&session::C01, &c02::C02, &session::C04, &c06::C06, &c10::C10]
+    vec![&session::C01, &c02::C02, &session::C04, &c06::C06, &c09::C09, &c10::C10, &c13::C13]
 }
 
 pub fn find(id: &str) -> Option<&'static dyn Check> {
